@@ -146,10 +146,8 @@ Section Spec.
     | TRes t' => option_map VResOk (expected t' m)         (* a mistake-free input gives Ok *)
     | TUnitR _ => match m with NPath _ _ => Some (VStruct []) | _ => None end
     | TNewtypeR c inner =>
-        match expected inner m with
-        | Some v => post_of (ci_post c) (VStruct [("0", v)])
-        | None => None
-        end
+        (* the generated from_meta of a newtype wraps the inner value; no container-level post-transform is emitted *)
+        option_map (fun v => VStruct [("0", v)]) (expected inner m)
     | TStructR c fs =>
         match m with
         | NList _ _ _ items =>
@@ -269,11 +267,7 @@ Section Spec.
     | TOpt t' | TBox t' => mistakes t' m
     | TRes _ => 0%N
     | TUnitR _ => match m with NPath _ _ => 0%N | _ => form_error end
-    | TNewtypeR c inner =>
-        let k := mistakes inner m in
-        if N.eqb k 0 then
-          match expected inner m with Some v => post_leaves (ci_post c) (VStruct [("0", v)]) | None => 0%N end
-        else k
+    | TNewtypeR c inner => mistakes inner m
     | TStructR c fs =>
         match m with
         | NList _ _ _ items =>
